@@ -454,7 +454,9 @@ def _uniform(res, index):
     # the xy coordinates are multiplied by sqrt(area / area_0): in place, through a named factor, or out of place
     scale_ok = any(e.type == "augassign" and e.op == "Mult" and _is_scale(e.rhs) for e in r["events"]) \
         or any(e.type == "local-store" and e.value is not None and e.value.extra and isinstance(e.value.extra, tuple)
-               and e.value.extra[0] == "factor" and _is_scale(e.value.extra[1]) for e in r["events"])
+               and e.value.extra[0] == "factor" and _is_scale(e.value.extra[1]) for e in r["events"]) \
+        or len([e for e in r["events"] if e.type == "scaled" and _is_scale(e.factor) and e.array is not None
+                and any(isinstance(t_, tuple) and t_[0] == "ret" and t_[1] in ("numpy.cos", "numpy.sin") for t_ in e.array.tags)]) >= 2
     if a0 is None:
         cands = [v for v in env.values() if v is not None and v.sym is not None and "sin<" in repr(v.sym) and not v.has_const()]
         (wrong if cands else unknown).append(f"area of the unit-circumradius n-gon is not n/2 sin(2 pi/n)" + (f" but {cands[0].sym}" if cands else " (not found)"))
